@@ -132,6 +132,25 @@ def job_forest(payload):
             out["shapes"][shape] = out["shapes"].get(shape, 0) + 1
             bad = []
             compare(truth, eng, "%s (shape %s, seed %d/%d)" % (os.path.basename(path), shape, seed, i), bad)
+            # walks that go up and come down again stay in the raw view: the children and attributes of `D parent` are those stored for it
+            rw = d.run("raw entry ?(parent) (|D| [D offset, [D parent child offset], [D parent attribute [label value, form value]]])",
+                       inp="d:" + common.hx(path), fuel=0, max=5000000, timeout=600)
+            if rw["st"] != "done":
+                bad.append(("raw-view-query-failed", dict(file=path, shape=shape, err="parent child: %s" % rw.get("msg"))))
+            else:
+                info = {off: (par, attrs) for root, ver, dies in truth for (off, tag, par, hc, attrs) in dies}
+                kids = {}
+                for root, ver, dies in truth:
+                    for (off, tag, par, hc, attrs) in dies:
+                        kids.setdefault(par, []).append(off)
+                for st in rw["res"]:
+                    e = seqvals(st[-1])
+                    off = num(e[0])
+                    par = info[off][0] if off in info else None
+                    gk = [num(x) for x in seqvals(e[1])]
+                    ga = [(num(seqvals(a)[0]), num(seqvals(a)[1])) for a in seqvals(e[2])]
+                    if par is None or gk != kids.get(par, []) or ga != list(info[par][1]):
+                        bad.append(("raw-walk-up-and-down-leaves-the-raw-view", dict(file=path, shape=shape, die=hex(off), parent=par, children=gk[:10], want_children=kids.get(par, [])[:10]))); break
             # parents asked for in ANOTHER order than the one the units are stored in (last unit first, then every second DIE backwards)
             rp = d.run("(|Dw| [Dw raw unit] relem entry [offset, (parent offset || -1)]), (|Dw| [Dw raw entry] relem ?(pos 2 mod == 0) [offset, (parent offset || -1)])",
                        inp="d:" + common.hx(path), fuel=0, max=5000000, timeout=600)
